@@ -223,3 +223,38 @@ def problems_events(bins):
             listed = lines[0][1:-1].split(",")
         evs.append({"ev": "problems", "bin": b, "exit": p.returncode, "listed": listed})
     return evs
+
+
+ICCMA_TEXT = {"cmt": "# a comment 1 2", "empty": "", "ws": "  ", "hdr": "p af 3", "hdr0": "p af 0", "hdrKind": "p cnf 3", "hdrP": "q af 3",
+              "hdrNum": "p af x", "hdrNeg": "p af -1", "hdrShort": "p af", "a12": "1 2", "a23": "2 3", "a33": "3 3", "aOOR": "1 4",
+              "aZero": "0 1", "aOne": "1", "aThree": "1 2 3", "aNaN": "a b"}
+APX_TEXT = {"argA": "arg(a).", "argB": "arg(b).", "argC": "arg(c).", "argSp": "arg( a ).", "argBad": "arg(1a).", "attAB": "att(a,b).",
+            "attBC": "att(b,c).", "attCC": "att(c,c).", "attSp": "att( a , b ).", "attUnd": "att(a,z).", "attOne": "att(a).",
+            "attThree": "att(a,b,c).", "attBad": "att(a,1b).", "junk": "hello.", "nodot": "arg(a)", "empty": "", "ws": "   "}
+
+
+def check_command_events(files, workdir, bins, seed, count):
+    """`crustabri check -f FILE -r FORMAT` on concretised abstract files (same line-kind texts as harness/src/io.rs)"""
+    rng = random.Random(seed)
+    d = os.path.join(workdir, "checkfiles")
+    os.makedirs(d, exist_ok=True)
+    sel = rng.sample(files, min(count, len(files)))
+    jobs = []
+    for i, f in enumerate(sel):
+        table = ICCMA_TEXT if f["fmt"] == "iccma" else APX_TEXT
+        text = "".join(table[k] + "\n" for k in f["lines"])
+        p = os.path.join(d, "f%d.%s" % (i, "af" if f["fmt"] == "iccma" else "apx"))
+        with open(p, "w") as fh:
+            fh.write(text)
+        jobs.append((f, [bins["crustabri"], "check", "-f", p, "-r", "iccma23" if f["fmt"] == "iccma" else "apx", "--logging-level", "off"]))
+
+    def one(job):
+        f, argv = job
+        try:
+            pr = subprocess.run(argv, stdout=subprocess.PIPE, stderr=subprocess.DEVNULL, timeout=60, text=True, errors="replace")
+            rc, to = pr.returncode, False
+        except subprocess.TimeoutExpired:
+            rc, to = -1, True
+        return {"ev": "checkcmd", "fmt": f["fmt"], "lines": f["lines"], "exit": rc, "timeout": to}
+    with cf.ThreadPoolExecutor(max_workers=os.cpu_count() or 4) as ex:
+        return list(ex.map(one, jobs))
